@@ -121,13 +121,13 @@ def run(ctx):
     base = ctx.seed * 32452843
     ns = names()
     cases = []
-    for r in range(ctx.n(30, 150)):
+    for r in range(ctx.n(30, 600)):
         for i, n in enumerate(ns):
             cases.append({'name': n, 'seed': base + 17 * i + 1000003 * r, 'err': ERR_VALUES[(i * 7 + r * 13 + ctx.seed) % len(ERR_VALUES)]})
     ctx.run_enum('result', cases, prop_result, exhaustive_label='every non-exempt BSD decoder name (END tuples sampled)')
     ov = st.fixed_dictionaries({'x': st.sampled_from(ns), 'y': st.sampled_from(ns), 'seed': st.integers(0, 2 ** 62),
                                 'ex': st.sampled_from([0, 9, 13, 35]), 'ey': st.sampled_from([0, 1, 2, 60]), 'crossing': st.booleans()})
-    ctx.run_given('overlap', ov, prop_overlap, ctx.n(500, 3000))
+    ctx.run_given('overlap', ov, prop_overlap, ctx.n(500, 10000))
     strat = st.fixed_dictionaries({'name': st.sampled_from(ns), 'seed': st.integers(0, 2 ** 62),
                                    'err': st.one_of(st.sampled_from(ERR_VALUES), S.u64)})
-    ctx.run_given('result', strat, prop_result, ctx.n(600, 3000))
+    ctx.run_given('result', strat, prop_result, ctx.n(600, 10000))
